@@ -7,7 +7,8 @@ PROP = "C06"
 CONSTS = ['toy', 'mem']          # constant tables of the models this property depends on
 RULE = ("random TOY memory images (program length 0..20, data words, self-modifying stores, branches into and past "
         "the program, opcodes 13-15), stepped with step(); every opcode as the first word of 1-, 2- and 3-word programs with "
-        "boundary addresses (0, last, first past the program, 0xFFF) and accumulators (0, 1, 0xFFFF); thorough adds a sweep of all 2^16 words as a single "
+        "boundary addresses (0, last, first past the program, 0xFFF) and accumulators (0, 1, 0xFFFF); every ordered pair of opcodes "
+        "followed by NOT; INC; STO; thorough adds a sweep of all 2^16 words as a single "
         "instruction on boundary accumulator/memory values; non-trivial = program executes >=2 instructions; "
         "distinct = distinct image")
 ASSUMPTIONS = ["fixedint UInt16/UInt12 wrap-around"]
@@ -28,6 +29,16 @@ def cases(rng, tier):
                     for _ in range(6):
                         lines += ["toy.call step", "toy.snap"]
                     yield Case("toy-short", lines, None, {"n": n, "words": words + [acc]})
+    # every ordered PAIR of opcodes (a value produced by one instruction consumed by the next), then NOT / INC / STO so that a
+    # wrong width or type of the accumulator shows
+    for op1 in range(16):
+        for op2 in range(16):
+            for acc in (0, 0xFFFF):
+                words = [(op1 << 12) | 200, (op2 << 12) | 200, 0x8000, 0x9000, 100]        # op1 200; op2 200; NOT; INC; STO 100
+                lines = ["toy.new", "toy.load " + " ".join(["5"] + [str(w) for w in words] + ["200:7"]), f"toy.accu {acc}", "toy.snap"]
+                for _ in range(6):
+                    lines += ["toy.call step", "toy.snap"]
+                yield Case("toy-pairs", lines, None, {"n": 5, "words": words + [acc]})
     if tier == "thorough":
         for w in range(0, 65536):
             acc = [0, 1, 0xFFFF, 0x8000, 0x1234][w % 5]
